@@ -270,6 +270,65 @@ theorem C19_refused_keeps_value (d : Decl) (s : Agg) (h : Reachable d s) (op : O
     simp only [step] at h2 ⊢
     cases op <;> simp only at h2 ⊢ <;> first | rfl | (split <;> first | rfl | (rename_i hc; simp [hc] at h2))
 
+/-! ## element aggregates with their own bounds -/
+
+/-- Everything EXPRESS lets stand for a declared element type has that type's shape — the kind at every level and the
+simple type at the bottom — which is exactly what `check_type` compares (`C19_check_type_structural`): no element EXPRESS
+allows is refused for its shape.  `_partial`: the converse needs the bounds, which `check_type` does not look at
+(`@TODO: check aggregate bounds` in TypeChecker.py) — see the witness. -/
+theorem C19_element_specialization_shape_partial (x e : BTy) (h : specializes x e = true) :
+    eraseBounds x = eraseBounds e := by
+  induction x generalizing e with
+  | simple t =>
+    cases e with
+    | simple t' => simp [specializes] at h; simp [eraseBounds, h]
+    | agg _ _ _ _ => simp [specializes] at h
+  | agg k lo hi b ih =>
+    cases e with
+    | simple _ => simp [specializes] at h
+    | agg k' lo' hi' b' =>
+      simp only [specializes, Bool.and_eq_true, decide_eq_true_eq] at h
+      simp [eraseBounds, h.1.1, ih b' h.2]
+
+/-- The runtime accepts an `ARRAY [1:5] OF REAL` where `ARRAY [1:2] OF REAL` is declared (same shape), EXPRESS does not;
+likewise a `LIST [0:?]` for a `LIST [0:3]` (finding `element-bounds-ignored`, probed on the real code by the check). -/
+theorem C19_element_bounds_ignored_witness :
+    eraseBounds (.agg .array 1 (some 5) (.simple 2)) = eraseBounds (.agg .array 1 (some 2) (.simple 2)) ∧
+    specializes (.agg .array 1 (some 5) (.simple 2)) (.agg .array 1 (some 2) (.simple 2)) = false ∧
+    eraseBounds (.agg .list 0 none (.simple 2)) = eraseBounds (.agg .list 0 (some 3) (.simple 2)) ∧
+    specializes (.agg .list 0 none (.simple 2)) (.agg .list 0 (some 3) (.simple 2)) = false := by decide
+
+/-! ## the EXPRESS built-in functions (Builtin.py) -/
+
+def specFn : BFn → BuiltinFn
+  | .sizeof => .sizeof | .hiindex => .hiindex | .loindex => .loindex
+  | .hibound => .hibound | .lobound => .lobound | .valueUnique => .valueUnique
+
+/-- `SIZEOF`, `HIINDEX`, `LOINDEX`, `HIBOUND`, `LOBOUND` and `VALUE_UNIQUE` of Builtin.py, applied to a container in any
+reachable state, return what ISO 10303-11 15.x defines for the EXPRESS value the container stands for (in particular
+VALUE_UNIQUE is three-valued: UNKNOWN as soon as one ARRAY element is unset).  Depends on the regenerated
+`builtinMethod` (which container method each function returns). -/
+theorem C19_builtins_refine (d : Decl) (s : Agg) (h : Reachable d s) (f : BFn) :
+    (Builtin.call f (.container s)).obs = builtin d (abs s) (specFn f) := by
+  cases f <;> simp only [Builtin.call, builtinMethod, queryOp, builtin, specFn] <;>
+    first
+    | exact (congrArg Prod.snd (C19_step_refines d s h .size)).symm
+    | exact (congrArg Prod.snd (C19_step_refines d s h .hiindex)).symm
+    | exact (congrArg Prod.snd (C19_step_refines d s h .loindex)).symm
+    | exact (congrArg Prod.snd (C19_step_refines d s h .hibound)).symm
+    | exact (congrArg Prod.snd (C19_step_refines d s h .lobound)).symm
+    | exact (congrArg Prod.snd (C19_step_refines d s h .unique)).symm
+
+/-- Applied to something that is not an aggregate the built-in functions refuse (`TypeError`). -/
+theorem C19_builtins_refuse_non_aggregates (f : BFn) (x : Val) : (Builtin.call f (.other x)).obs = .refused := rfl
+
+/-- VALUE_UNIQUE / `get_value_unique` on an ARRAY is three-valued: UNKNOWN iff some element in the index range is unset,
+otherwise TRUE iff all elements differ. -/
+theorem C19_value_unique_three_valued (d : Decl) (a : Arr) (h : Reachable d (.arr a)) :
+    a.valueUnique = (if ∃ j ∈ indices d.lo a.hi, absArr a j = none then Logical.u
+                     else if ((indices d.lo a.hi).map (absArr a)).Nodup then Logical.t else Logical.f) :=
+  (arr_valueUnique d a (reachable_inv h)).symm
+
 /-! ## non-interference between containers -/
 
 /-- What one container answers does not depend on what was done to any other container, before or in between: in any
